@@ -5,7 +5,7 @@
    same Next in the Go code; the tie checks the three entry points against this one function.
    Whitespace is the one-byte ASCII class (the tie keeps non-ASCII Unicode space encodings out of its inputs). *)
 From Coq Require Import List Ascii String Bool Arith Lia.
-Require Import GS R2 R3 R5 R6.
+Require Import GS R2 R3 R5 R6 HIST.
 Import ListNotations.
 
 (* a document: paragraphs, each = skippable lines (empty, CR-only, '#' comments, blank-only), then fields
@@ -56,3 +56,8 @@ Example C07_instance : Forall lpara_ok R6ex.d1 /\ Forall skip_ok [s "#end"] /\ F
   read_all (unlines (doc_lines R6ex.d1 [s "#end"])) = Some [ {| order := [s "Package"; s "Depends"];
      values := [(s "Package", s "a" ++ [nl] ++ s "x  y" ++ [nl; nl]); (s "Depends", s "b" ++ [nl])] |} ].
 Proof. exact R6ex.C07_nonvacuous. Qed.
+
+(* one reader used both ways: Next once, then All for the rest, sees the sequence that All alone sees *)
+Theorem C07_next_then_all_is_all : forall x p ps, R2.read_all x = Some (p :: ps) ->
+  exists rest, R2.next R2.empty_para [] (lines_of x) = R2.RPara p rest /\ R2.all_fuel (List.length (lines_of x)) rest = Some ps.
+Proof. exact HIST.C07_next_then_all. Qed.
